@@ -116,7 +116,7 @@ def commonValidate (source : String) (attrs : List Annot) : List Diag :=
               else if Gleece.Generated.validHttpVerbs.contains a.value then [err "unsupported-feature"]
               else [err "annotation-value-invalid"])
            else if a.name = "Response" || a.name = "ErrorResponse" then
-             (match a.value.toNat? with
+             (match Gleece.Text.parseUint a.value with
               | none => [err "annotation-value-invalid"]
               | some n => if n < 4294967296 then (if validStatusCodes.contains n then [] else [warn "annotation-value-invalid"]) else [err "annotation-value-invalid"])
            else [])
@@ -297,5 +297,27 @@ def validateControllerSelf (annots : List Annot) : List Diag :=
   commonValidate "controller" annots ++ (if annots.any (·.name = "Tag") then [] else [warn "controller-missing-tag"])
 
 def hasError (ds : List Diag) : Bool := ds.any (·.severity = 1)
+
+/-! ### the annotation rules, stated over the list as a whole (decidable form of `AnnotsWellFormed`, C10Common.lean) -/
+
+/-- does the annotation table demand a unique value for this annotation -/
+def requiresUnique (a : Annot) : Bool :=
+  match lookupDef a.name with
+  | some d => d.requiresUniqueValue
+  | none => false
+
+def uniqueB : List Annot → List String → Bool
+  | [], _ => true
+  | a :: rest, seen => (!(requiresUnique a && !a.value.isEmpty) || !seen.contains a.value) && uniqueB rest (seen ++ [a.value])
+
+def annotsWellFormedB (as : List Annot) : Bool :=
+  as.all (fun a => match lookupDef a.name with
+    | none => false
+    | some d => (!d.requiresValue || !a.value.isEmpty) && d.mutuallyExclusive.all (fun x => as.all (fun b => b.name != x))) &&
+  uniqueB as [] &&
+  as.all (fun a => a.name != "Method" || Gleece.Generated.routeSupportedHttpVerbs.contains a.value) &&
+  as.all (fun a => !(a.name = "Response" || a.name = "ErrorResponse") ||
+    (match Gleece.Text.parseUint a.value with | some n => decide (n < 4294967296) | none => false))
+
 
 end Gleece.Validate
